@@ -100,8 +100,8 @@ theorem C16_tie_callsites :
 /-- fingerprints, only where no finer fact exists: the two `processFetching` bodies (early return on a failed
     fetch, flag cleared only on success) and the duty-store map operations -/
 theorem C16_tie_fingerprints :
-    Gen.src_att_processFetching = "d15994b1832e7d57" ∧ Gen.src_sync_processFetching = "0b2ae893b5606366" ∧
-    Gen.src_store_Add = "84b87a8b9b100b98" ∧ Gen.src_store_CommitteeSlotDuties = "b45bc44235cefab2" := by decide
+    Gen.src_att_processFetching = "edf920f17ee85f07" ∧ Gen.src_sync_processFetching = "ae78804de626ce2c" ∧
+    Gen.src_store_Add = "6c3e4595280aaa0f" ∧ Gen.src_store_CommitteeSlotDuties = "55dc819b79018e9a" := by decide
 
 /-! ## at most once -/
 
